@@ -148,6 +148,7 @@ def run_in_child(fn, arg, timeout=60.0):
             # the check's stdout clean
             dn = os.open(os.devnull, os.O_WRONLY)
             os.dup2(dn, 1)
+            os.dup2(dn, 2)       # and warnings the run lets through on purpose
             try:
                 res = fn(arg)
                 out = json.dumps({"ok": res}, allow_nan=True)
